@@ -12,7 +12,7 @@ GEN = convprop.MODEL_TABLES
 # several representatives per kind: besides an ordinary one, the values that Python's == identifies with the members of
 # the literal and enum targets below (5.0 == 5, (1+0j) == 1 == True, 0 == False) -- a lookup by == must not let them through
 REPS = {'none': [None], 'bool': [True, False], 'int': [5, 1, 0], 'float': [2.5, 5.0, 1.0, 0.0], 'complex': [1j, 5 + 0j, 1 + 0j],
-        'str': ['x'], 'bytes': [b'x'], 'bytearray': [bytearray(b'x')], 'list': [[5]], 'tuple': [(5,)], 'dict': [{'x': 5}, {5: 'x'}, {}]}
+        'str': ['x', '5', '1', 'true', 'null', '2.5'], 'bytes': [b'x'], 'bytearray': [bytearray(b'x')], 'list': [[5]], 'tuple': [(5,)], 'dict': [{'x': 5}, {5: 'x'}, {}]}
 NUM = {'bool', 'int', 'float', 'complex'}
 # the matrix, from the property text (independent of Coq's strict_ok; both are compared with pane)
 ACCEPT = {
@@ -195,7 +195,32 @@ def mixed_enum_membership(out):
     return n
 
 
+def failed_calls_first():
+    """a history of FAILED conversions through every entry point (strictness may not depend on what was attempted before)"""
+    import io as _io
+    import typing as t
+    import pane
+    from pane import io as pio
+
+    class _C(pane.PaneBase):
+        m: t.Dict[int, str] = pane.field(default_factory=dict)
+    calls = [lambda: pio.from_json(_io.StringIO('{"a": "x"}'), t.Dict[int, int]), lambda: pio.from_json(_io.StringIO('[1, "x"]'), t.List[int]),
+             lambda: pio.from_yaml(_io.StringIO('a: x'), t.Dict[int, int]), lambda: _C.from_jsons('{"m": {"k": 1}}'), lambda: _C.from_yamls('m: {k: 1}'),
+             lambda: _C.from_json(_io.StringIO('{"m": 5}')), lambda: pane.convert({'a': 'x'}, t.Dict[int, int]), lambda: _C(m={'k': 1}),
+             lambda: pane.from_data({'a': 'x'}, t.Dict[float, int]), lambda: pane.into_data(object()), lambda: pio.from_json(_io.StringIO('{"a"'), int)]
+    n = 0
+    with warnings.catch_warnings():
+        warnings.simplefilter('ignore')
+        for c in calls:
+            try:
+                c()
+            except Exception:
+                n += 1
+    return n
+
+
 def run(ctx, out):
+    out.extra['failed_calls_before_the_matrix'] = failed_calls_first()
     import families as _famsm
     out.evaluations += _famsm.struct_mapping_family(out, PROP)
     out.evaluations += mixed_enum_membership(out)
